@@ -28,6 +28,7 @@ type Fact struct {
 	Q       *Sub // may be nil
 	Arr     []int64
 	M       map[string]int64
+	Once    int64 // written only by Mark(), never read by a rule
 
 	hook func(ev J) // call log (nil = off)
 	gate func(site string)
@@ -70,6 +71,9 @@ func (f *Fact) Risky(a int64) int64 {
 // SetX / SetY change a field behind the engine's back (the rule must announce it with Forget/Changed).
 func (f *Fact) SetX(v int64) { f.X = v; f.logCall("SetX", []interface{}{v}, 0) }
 func (f *Fact) SetY(v int64) { f.Y = v; f.logCall("SetY", []interface{}{v}, 0) }
+
+// Mark records that a method-call action ran: no rule reads F.Once, so no Forget is needed.
+func (f *Fact) Mark(v int64) { f.Once = f.Once*10 + v; f.logCall("Mark", []interface{}{v}, 0) }
 
 func cloneFact(f *Fact) *Fact {
 	g := *f
@@ -119,7 +123,7 @@ func (w *World) DataContext() ast.IDataContext {
 func (w *World) Snapshot() J {
 	f := w.F
 	s := J{"F.X": f.X, "F.Y": f.Y, "F.Z": f.Z, "F.K": int64(f.K), "F.W": int64(f.W), "F.B": f.B, "F.C": f.C,
-		"F.S": f.S, "F.T": f.T, "F.I": f.I}
+		"F.S": f.S, "F.T": f.T, "F.I": f.I, "F.Once": f.Once}
 	if f.P != nil {
 		s["F.P.V"] = f.P.V
 		s["F.P.S"] = f.P.S
